@@ -125,9 +125,12 @@ impl<K: ExpiredKey<E>, E: Expiration, V: Copy> KeyExpList<K, E, V> {
         (self.buffer.iter().map(|e| (e.key, e.val)).collect(), self.min_exp)
     }
 
+    /// Independent copy (`into_ordered_vec` consumes `self`); keeps the buffer's capacity.
     pub fn verif_clone(&self) -> Self {
+        let mut buffer = Vec::with_capacity(self.buffer.capacity());
+        buffer.extend_from_slice(&self.buffer);
         Self {
-            buffer: self.buffer.clone(),
+            buffer,
             min_exp: self.min_exp,
         }
     }
